@@ -46,7 +46,45 @@ Theorem C02_rejects_segments_partial :
 Proof. exact assemble_segments_sound. Qed.
 Print Assumptions C02_rejects_segments_partial.
 
-(* the full statements (Proofs/LayoutProps.v: C02_sound_statement, C02_rejects_statement) are NOT proved yet;
+(* ... the execution part of the wflip clause, on the machine definition, for ANY image (no assembler involved): a chain
+   stored in the image (op x_i has flip word f_i and jump word x_{i+1}, the last one R) whose flips are the bits of
+   the statement and whose ops after the first are auxiliary (aux_ok, not on the input-cell op, not below 2w) satisfies
+   wflip_ok: from the statement's address the run performs |flip_bits A V| ops, flips exactly those bits, each once,
+   and is at R - under the clause's side conditions (wflip_side_ok) *)
+Theorem C02_wflip_exec :
+  forall ww img (L : list placed) (a A V R : N) (cs : list (N * N)),
+    cs <> [] -> next_of cs R = a ->
+    chain_in ww (i_segs img) (i_mem img) cs R ->
+    map snd cs = flip_bits ww A V ->
+    NoDup (map snd cs) ->
+    (forall x, In x (tl (map fst cs)) ->
+               aux_ok ww img L x = true /\ covers_input ww x = false /\ (dw ww <= x)%N) ->
+    wflip_ok ww img L a A V R.
+Proof. exact wflip_exec. Qed.
+Print Assumptions C02_wflip_exec.
+
+(* ... hence the whole of Denotes, given only that every wflip statement has such a stored chain in the model's image
+   (wflip_chain_ok = what C02_wflip_chain_invariant + C02_aux_placement still have to establish) *)
+Theorem C02_sound_modulo_chains_partial :
+  forall ww ver P segs words lbls,
+    assemble_model ww ver true P = Ok (segs, words, lbls) ->
+    lexical_labels P = true -> reserves_nonneg ww P lbls = true ->
+    (forall L, place ww (lookup lbls) P 0 = Some L -> Forall (wflip_chain_ok ww (image_of segs words) L lbls) L) ->
+    Denotes ww (image_of segs words) P lbls.
+Proof. exact assemble_sound_modulo_chains. Qed.
+Print Assumptions C02_sound_modulo_chains_partial.
+
+(* ... and the first part of the auxiliary placement: for every program the model assembles, no chain op (label
+   `:wflips:k`) is on the op that holds the input cell - the fix of finding F16, for all programs *)
+Theorem C02_aux_not_on_io_partial :
+  forall ww ver strict P segs words lbls,
+    assemble_model ww ver strict P = Ok (segs, words, lbls) -> lexical_labels P = true -> aux_on_io ww lbls = false.
+Proof. exact assemble_aux_not_on_io. Qed.
+Print Assumptions C02_aux_not_on_io_partial.
+
+(* the full statements (Proofs/LayoutProps.v: C02_sound_statement, C02_rejects_statement) are NOT proved yet: missing is
+   exactly the hypothesis of C02_sound_modulo_chains_partial (the sharing-table invariant of insert_wflip_ops giving a
+   stored chain per wflip statement, and aux_ok / address >= 2w of its auxiliary ops);
    the second is a corollary of the first *)
 Theorem C02_rejects_from_sound_partial : C02_sound_statement -> C02_rejects_statement.
 Proof. exact C02_rejects_from_sound. Qed.
